@@ -4,6 +4,7 @@ import Proofs.Lemmas.C02Altair
 import Proofs.Lemmas.C02Phase0
 import Proofs.Lemmas.C02WF
 import Zrnt.Beacon.Impl.Pipeline
+import Proofs.Lemmas.C02Slots
 import Zrnt.Beacon.Impl.Final
 /-!
 # C02 — slot, epoch and fork-upgrade processing equals the consensus spec
@@ -876,5 +877,69 @@ theorem processSlots_eq_partial (cfg : Config) (slotFn upgFn : State → State) 
 /-- non-vacuity: the trivial invariant on a configuration where no epoch boundary … is NOT what is meant; a real
 instance is `Inv := fun x => EpochWF cfg (slotFn x)` with a `slotFn` that only writes the root caches -/
 example : ∃ (Inv : State → Prop) (s : State), Inv s := ⟨fun _ => True, default, trivial⟩
+
+/-! ## `ProcessSlot`, the four upgrades, `UpgradeMaybe` -/
+
+/-- `processSlot_eq`: `common.ProcessSlot` (roots written at `slot % VectorLength` of the batch vectors, header state
+root filled in on a local copy that is then hashed) = `process_slot`, when the two batch vectors have
+`SLOTS_PER_HISTORICAL_ROOT` entries (their SSZ type). -/
+theorem processSlot_eq (cfg : Config) (root : Bytes) (s : State)
+    (h1 : s.state_roots.length = cfg.SLOTS_PER_HISTORICAL_ROOT) (h2 : s.block_roots.length = cfg.SLOTS_PER_HISTORICAL_ROOT) :
+    Impl.processSlot root s = process_slot_pure cfg root s :=
+  Lemmas.processSlot_eq' cfg root s h1 h2
+
+/-- non-vacuity -/
+example : ∃ (cfg : Config) (s : State), s.state_roots.length = cfg.SLOTS_PER_HISTORICAL_ROOT ∧
+    s.block_roots.length = cfg.SLOTS_PER_HISTORICAL_ROOT := ⟨default, default, rfl, rfl⟩
+
+/-- `upgrade_altair_eq`: `altair.UpgradeToAltair` (every field read and passed to `FromFields`; `TranslateParticipation`
+OR-ing the flag BIT MASK of `GetApplicableAttestationParticipationFlags` into the registry entries of the
+participants; one computed sync committee used twice) = `upgrade_to_altair` (`translate_participation` adding the
+flag INDICES one by one with `add_flag`; `get_next_sync_committee` evaluated twice on the same state). -/
+theorem upgrade_altair_eq (cfg : Config) (inp : UpgradeInputs) (pre : State) :
+    Impl.upgradeToAltair cfg inp pre = upgrade_to_altair_pure cfg inp pre :=
+  Lemmas.upgradeToAltair_eq' cfg inp pre
+
+/-- `TranslateParticipation` = `translate_participation` on any registry of 3-bit participation values -/
+theorem translate_participation_eq (cfg : Config) (atts : List FlagAtt) (participation : List Nat)
+    (hsmall : ∀ x ∈ participation, x < 8) :
+    Impl.translateParticipation cfg atts participation = translate_participation_pure cfg atts participation :=
+  Lemmas.translateParticipation_eq' cfg atts participation hsmall
+
+/-- non-vacuity -/
+example : ∀ x ∈ [0, 3, 7], x < 8 := by decide
+
+theorem upgrade_bellatrix_eq (cfg : Config) (pre : State) :
+    Impl.upgradeToBellatrix cfg pre = upgrade_to_bellatrix_pure cfg pre := Lemmas.upgradeToBellatrix_eq' cfg pre
+
+theorem upgrade_capella_eq (cfg : Config) (pre : State) :
+    Impl.upgradeToCapella cfg pre = upgrade_to_capella_pure cfg pre := Lemmas.upgradeToCapella_eq' cfg pre
+
+theorem upgrade_deneb_eq (cfg : Config) (pre : State) :
+    Impl.upgradeToDeneb cfg pre = upgrade_to_deneb_pure cfg pre := Lemmas.upgradeToDeneb_eq' cfg pre
+
+/-- `upgradeMaybe_eq`: the chain of four independent `if`s of `UpgradeMaybe` (dynamic type of the state and
+`slot == FORK_EPOCH * SLOTS_PER_EPOCH`) = "upgrade at the first slot of the fork's epoch, in fork order", for EVERY
+fork schedule (no monotonicity needed at this level: both sides skip a fork whose predecessor type is not there;
+equal fork epochs upgrade several times at one slot on both sides). (`state_fork_invariant` of the configuration
+component says what type the state then has along a monotone schedule.) -/
+theorem upgradeMaybe_eq (cfg : Config) (inp : UpgradeInputs) (s : State) (hspe : 0 < cfg.SLOTS_PER_EPOCH) :
+    Impl.upgradeMaybe cfg inp s = upgrade_maybe_pure cfg inp s :=
+  Lemmas.upgradeMaybe_eq' cfg inp s hspe
+
+/-- one iteration of `common.ProcessSlots` (epoch end detected by comparing the epochs of the two slots) = one
+iteration of `process_slots` with the upgrade that follows, for the same epoch function -/
+theorem processSlotsStep_eq (cfg : Config) (inp : SlotInputs) (s : State) (hspe : 0 < cfg.SLOTS_PER_EPOCH)
+    (h1 : s.state_roots.length = cfg.SLOTS_PER_HISTORICAL_ROOT) (h2 : s.block_roots.length = cfg.SLOTS_PER_HISTORICAL_ROOT) :
+    Impl.processSlotsStep cfg inp s = process_slot_step_pure Impl.processEpochPure cfg inp s := by
+  unfold Impl.processSlotsStep process_slot_step_pure
+  simp only [processSlot_eq cfg inp.stateRoot s h1 h2, upgradeMaybe_eq cfg _ _ hspe, Impl.slotToEpoch, Lemmas.epoch_end_iff]
+  have hslot : (process_slot_pure cfg inp.stateRoot s).slot = s.slot := by
+    unfold process_slot_pure; simp only []; split <;> rfl
+  simp only [hslot, decide_eq_true_eq]
+  congr 1
+  split
+  · rw [Lemmas.processEpochPure_slot, hslot]
+  · rw [hslot]
 
 end Zrnt.Proofs.C02
